@@ -576,6 +576,7 @@ impl Clone for %s {
         txt = self.r24_take_while_map(txt)
         txt = self.r26_btree_next_after(txt)
         txt = self.r28_keys_map(txt)
+        txt = self.r31_iter_map_sum(txt)
         # R32: `X.extend(S.iter().copied())` -> `vshim::extend_copied(&mut X, S)` (Extend::extend is generic over IntoIterator; Copied<Iter> has no vstd model)
         txt, k32 = re.subn(r'\b((?:self\s*\.\s*)?[a-z_][a-z0-9_]*)\.extend\(\s*([a-z_][a-z0-9_]*)\.iter\(\)\.copied\(\)\s*\)', r'crate::vshim::extend_copied(&mut \1, \2)', txt)
         self.rules.hit('R32', k32)
@@ -639,6 +640,54 @@ impl Clone for %s {
                 self.rules.hit('R28')
                 return self.r28_keys_map(txt[:sg[k].start] + 'crate::vshim::iter_map(' + recv + ',' + '\n' * txt[sg[i + 3].end:sg[i + 6].end].count('\n') + f_txt + ')' + txt[sg[close].end:])
         return txt
+
+    def r31_iter_map_sum(self, txt):
+        # R31: the statement `let NAME = X.iter().map(F).sum();` -> `let verif_itN = X.iter(); let ghost verif_srcN = verif_itN.remaining(); let verif_fN = F; let NAME = vshim::iter_map_sum(verif_itN, &verif_fN);`
+        # Iterator::map / sum are provided trait methods without vstd model: the shim holds the std calls and is assumed to return the sum of F
+        # over the items; the iterator and the closure are bound to names so that the caller's proof can speak about them.
+        # R30 (applied to F here): a tuple-pattern closure parameter `|(a, b)| E` -> `|verif_t| { let (a, b) = verif_t; E }` (Verus wants identifier patterns)
+        n = 0
+        while True:
+            sg = [t for t in lex(txt) if t.kind not in ('ws', 'comment')]
+            hit = None
+            for i in range(len(sg) - 7):
+                if (sg[i].text == '.' and sg[i + 1].text == 'iter' and sg[i + 2].text == '(' and sg[i + 3].text == ')' and sg[i + 4].text == '.'
+                        and sg[i + 5].text == 'map' and sg[i + 6].text == '('):
+                    d, close = 0, None
+                    for j in range(i + 6, len(sg)):
+                        if sg[j].text in ('(', '[', '{'):
+                            d += 1
+                        elif sg[j].text in (')', ']', '}'):
+                            d -= 1
+                            if d == 0:
+                                close = j; break
+                    if close is None or close + 5 >= len(sg) or not (sg[close + 1].text == '.' and sg[close + 2].text == 'sum' and sg[close + 3].text == '('
+                                                                     and sg[close + 4].text == ')' and sg[close + 5].text == ';'):
+                        continue
+                    k = i
+                    while k - 1 >= 0 and (sg[k - 1].kind == 'ident' or sg[k - 1].text == '.'):
+                        k -= 1
+                    # the chain must be the whole initialiser of `let NAME =`
+                    if k < 3 or sg[k - 1].text != '=' or sg[k - 2].kind != 'ident' or sg[k - 3].text != 'let':
+                        continue
+                    hit = (k, i, close); break
+            if hit is None:
+                return txt
+            k, i, close = hit
+            n += 1
+            name = sg[k - 2].text
+            recv = re.sub(r'\s+', '', txt[sg[k].start:sg[i + 3].end])
+            f_txt = txt[sg[i + 6].end:sg[close].start].strip()
+            m = re.match(r'\|\s*\(([^()|]*)\)\s*\|\s*(.*)$', f_txt, re.S)
+            if m:
+                f_txt = '|verif_t| { let (%s) = verif_t; %s }' % (m.group(1).strip(), m.group(2).strip())
+                self.rules.hit('R30')
+            whole = txt[sg[k - 3].start:sg[close + 5].end]
+            new = ('let verif_it%d = %s; let ghost verif_src%d = verif_it%d.remaining(); let verif_f%d = %s; let %s = crate::vshim::iter_map_sum(verif_it%d, &verif_f%d);'
+                   % (n, recv, n, n, n, f_txt, name, n, n)
+                   + '\n' * whole.count('\n'))
+            self.rules.hit('R31')
+            txt = txt[:sg[k - 3].start] + new + txt[sg[close + 5].end:]
 
     def r23_deref_patterns(self, txt):
         # R23: a reference pattern binding a Copy value in a match arm, `PATH(&NAME) => {` -> `PATH(NAME__verif_ref) => { let NAME = *NAME__verif_ref;`
